@@ -501,6 +501,12 @@ func runC07B(args []string) error {
 		if err := rsRound(lg, rng, cs, 2097152+70, 1, false); err != nil {
 			return err
 		}
+		// shard lengths just above multiples of 32 KiB (cache-sized chunking would leave a short tail), few goroutines
+		for _, lg2 := range [][2]int{{32770, 1}, {65540, 2}, {65548, 1}, {98312, 3}, {131086, 4}, {32768 + 14, 1}, {65536 + 30, 2}} {
+			if err := rsRound(lg, rng, cs, lg2[0], lg2[1], false); err != nil {
+				return err
+			}
+		}
 	}
 	if c.tier == "thorough" {
 		// near the documented limits
